@@ -187,7 +187,11 @@ pub fn read<S: Src, K: Skel, const SEC: u8>(s: &mut S) -> Verdict {
 /// (ill-formed: -1, nothing changes); 3: set_name (text); 4: delete
 pub fn write<S: Src, K: Skel, const TARGET: usize, const MODE: u8>(s: &mut S) -> Verdict {
     let (p, mut pp, mut twin) = parse2::<K, S>(s)?;
-    cut_errors(0);
+    // operations that must succeed run with "library error = failed check" (parse2 set it);
+    // the refused name and the address setters (PropertyNotFound paths) explore error paths
+    if MODE == 0 || MODE == 2 {
+        cut_errors(0);
+    }
     let mut seen = Seen::new();
     seen.target = TARGET;
     seen.new_ttl = s.u32();
@@ -243,6 +247,7 @@ pub fn write<S: Src, K: Skel, const TARGET: usize, const MODE: u8>(s: &mut S) ->
         k += 1;
         cur = it.next();
     }
+    cut_errors(0);
     vassert!(seen.rc == native_rc, "table call returns 0 / -1 exactly as the native operation succeeds / fails");
     if MODE == 2 {
         vassert!(seen.rc == -1, "table set_raw_name: an ill-formed name is reported as -1");
